@@ -113,7 +113,10 @@ RULE = ("ADD-PATH receive (group aprx): TLC -simulate histories of AdjInApGen.tl
 ASSUMPTIONS = ["the speaker only RECEIVES add-paths in this group (what it sends to ADD-PATH receivers is C01's group addpath)",
                "among candidates that tie on every documented decision step (paths of one neighbour with equal "
                "LOCAL_PREF, AS_PATH length and MED) any may be listed first: the oracle is a sandwich",
-               "an UPDATE never names the same (prefix, path identifier) in both the withdrawn and the announced field"]
+               "an UPDATE never names the same (prefix, path identifier) in both the withdrawn and the announced field",
+               "a flood with hold=true is steered through the build-tag hook verifYield(recv) (the last UPDATE is read, "
+               "its handler runs after the session end / removal); a flood without hold runs as the scheduler gives: "
+               "its outcome, and a replay of it, may differ from run to run (only the outcome 'nothing stays' is accepted)"]
 
 
 def main(run):                   # stand-alone use while developing (the check itself is C02)
